@@ -784,6 +784,9 @@ int ext2_live(int id)
 		return o->xi[QX_CREATED] && (!o->xi[QX_PUT] || o->xi[QX_OUTSTANDING] > 0 || pool_workers_alive(id) > 0);
 	case K_IVTHREAD:
 		return o->xi[TX_STATE] == 1 || o->xi[TX_STATE] == 2;
+	case K_ITEM:
+		/* an item submitted without a pool is queued on a library-internal task of the submitting thread */
+		return PL->obj[id].p[0] < 0 && (o->xi[IX_STATE] == 1 || o->xi[IX_STATE] == 2 || o->xi[IX_STATE] == 3);
 	}
 	return ext3_live(id);
 }
